@@ -1,4 +1,4 @@
-package io
+package io_test
 
 // C09 — the UnixFS file reader behaves as a seekable byte reader. Real:
 // uio.DagReader, go-ipld-format Walker / NavigableIPLDNode (child preloading
@@ -21,9 +21,13 @@ import (
 	chunker "github.com/ipfs/boxo/chunker"
 	"github.com/ipfs/boxo/internal/verifsim"
 	"github.com/ipfs/boxo/internal/verifsim/simdag"
+	mdag "github.com/ipfs/boxo/ipld/merkledag"
+	ft "github.com/ipfs/boxo/ipld/unixfs"
 	"github.com/ipfs/boxo/ipld/unixfs/importer/balanced"
 	"github.com/ipfs/boxo/ipld/unixfs/importer/helpers"
 	"github.com/ipfs/boxo/ipld/unixfs/importer/trickle"
+	uio "github.com/ipfs/boxo/ipld/unixfs/io"
+	"github.com/ipfs/boxo/ipld/unixfs/mod"
 	ipld "github.com/ipfs/go-ipld-format"
 	"pgregory.net/rapid"
 )
@@ -37,6 +41,13 @@ type c09Op struct {
 	CancelAt int `json:"cancel_at,omitempty"`
 }
 
+type c09Mod struct {
+	Kind string `json:"k"` // write truncate
+	Off  int    `json:"off"`
+	N    int    `json:"n,omitempty"`
+	Seed int    `json:"seed,omitempty"`
+}
+
 type c09Case struct {
 	Cfg       verifsim.Config `json:"cfg"`
 	Size      int             `json:"size"`
@@ -45,8 +56,11 @@ type c09Case struct {
 	Trickle   bool            `json:"trickle"`
 	RawLeaves bool            `json:"raw_leaves"`
 	DataSeed  int             `json:"data_seed"`
-	Ops       []c09Op         `json:"ops"`
-	FailGets  []int           `json:"fail_gets,omitempty"` // ordinals (over the whole run) of fetches that fail
+	// Mods are applied to the imported file with the DagModifier before the reader
+	// operations start (quietly: the modifier is not under test here)
+	Mods     []c09Mod `json:"mods,omitempty"`
+	Ops      []c09Op  `json:"ops"`
+	FailGets []int    `json:"fail_gets,omitempty"` // ordinals (over the whole run) of fetches that fail
 }
 
 func c09Gen(t *rapid.T, tier string) any {
@@ -65,6 +79,24 @@ func c09Gen(t *rapid.T, tier string) any {
 	c.Trickle = rapid.Bool().Draw(t, "trickle")
 	c.RawLeaves = rapid.Bool().Draw(t, "raw")
 	c.DataSeed = rapid.IntRange(0, 1<<20).Draw(t, "dseed")
+	if rapid.IntRange(0, 2).Draw(t, "modified") == 0 {
+		nm := rapid.IntRange(1, 4).Draw(t, "nmods")
+		for i := 0; i < nm; i++ {
+			m := c09Mod{Kind: rapid.SampledFrom([]string{"write", "write", "truncate"}).Draw(t, "mkind")}
+			m.Off = rapid.SampledFrom([]int{0, 1, c.Chunk - 1, c.Chunk, c.Chunk + 1, c.Size / 2, c.Size - 1, c.Size, c.Size + 1, c.Size + c.Chunk + 3}).Draw(t, "moff")
+			if m.Off < 0 {
+				m.Off = 0
+			}
+			if m.Kind == "write" {
+				m.N = rapid.SampledFrom([]int{1, c.Chunk - 1, c.Chunk, c.Chunk + 1, 3*c.Chunk + 2}).Draw(t, "mn")
+				if m.N < 1 {
+					m.N = 1
+				}
+				m.Seed = rapid.IntRange(0, 1<<20).Draw(t, "mseed")
+			}
+			c.Mods = append(c.Mods, m)
+		}
+	}
 	nops := rapid.IntRange(1, 30).Draw(t, "nops")
 	for i := 0; i < nops; i++ {
 		op := c09Op{Kind: rapid.SampledFrom([]string{"read", "read", "ctxread", "seek", "seek", "writeto"}).Draw(t, "kind")}
@@ -119,6 +151,33 @@ func (w *c09Writer) Write(p []byte) (int, error) {
 	return w.buf.Write(p)
 }
 
+// c09Flatten concatenates the file's bytes by a plain depth-first walk.
+func c09Flatten(dag *simdag.DAG, n ipld.Node) ([]byte, error) {
+	switch x := n.(type) {
+	case *mdag.RawNode:
+		return x.RawData(), nil
+	case *mdag.ProtoNode:
+		fsn, err := ft.FSNodeFromBytes(x.Data())
+		if err != nil {
+			return nil, err
+		}
+		out := append([]byte(nil), fsn.Data()...)
+		for _, l := range x.Links() {
+			ch, ok := dag.Nodes[l.Cid.KeyString()]
+			if !ok {
+				return nil, fmt.Errorf("missing block %s", l.Cid)
+			}
+			b, err := c09Flatten(dag, ch)
+			if err != nil {
+				return nil, err
+			}
+			out = append(out, b...)
+		}
+		return out, nil
+	}
+	return nil, errors.New("unexpected node type")
+}
+
 func c09Run(t *testing.T, ci any, trace bool) *verifsim.Result {
 	c := ci.(*c09Case)
 	return verifsim.Run(t, c.Cfg, trace, func(s *verifsim.Sim) {
@@ -144,13 +203,62 @@ func c09Run(t *testing.T, ci any, trace bool) *verifsim.Result {
 			s.Failf("harness-build", "building the file failed: %v", err)
 			return
 		}
+		if len(c.Mods) > 0 {
+			dm, err := mod.NewDagModifier(context.Background(), root, dag, func(r stdio.Reader) chunker.Splitter {
+				return chunker.NewSizeSplitter(r, int64(c.Chunk))
+			})
+			if err != nil {
+				s.Failf("harness-build", "NewDagModifier failed: %v", err)
+				return
+			}
+			dm.MaxLinks = c.MaxLinks
+			for _, m := range c.Mods {
+				switch m.Kind {
+				case "write":
+					b := c09Data(m.Seed, m.N)
+					if _, err := dm.WriteAt(b, int64(m.Off)); err != nil {
+						s.Logf("modifier write failed (%v): file not judged", err)
+						return
+					}
+					if m.Off+m.N > len(data) {
+						data = append(data, make([]byte, m.Off+m.N-len(data))...)
+					}
+					copy(data[m.Off:], b)
+				case "truncate":
+					if err := dm.Truncate(int64(m.Off)); err != nil {
+						s.Logf("modifier truncate failed (%v): file not judged", err)
+						return
+					}
+					if m.Off <= len(data) {
+						data = data[:m.Off]
+					} else {
+						data = append(data, make([]byte, m.Off-len(data))...)
+					}
+				}
+			}
+			root, err = dm.GetNode()
+			if err != nil {
+				s.Logf("modifier GetNode failed (%v): file not judged", err)
+				return
+			}
+			// the modifier is not under test here: a file whose blocks, concatenated by
+			// a plain recursive walk, are not the bytes the operations should have
+			// produced is left to the modifier's own property
+			flat, err := c09Flatten(dag, root)
+			if err != nil || !bytes.Equal(flat, data) {
+				s.Probe("modifier-built-file-differs-from-byte-model")
+				s.Logf("modifier-built file differs from the byte model (err=%v, %d vs %d bytes): not judged", err, len(flat), len(data))
+				return
+			}
+			s.Probe("modifier-built-file")
+		}
 		dag.Quiet = false
 		dag.Faults = faults
 		ctx, cancelAll := context.WithCancel(context.Background())
 		defer cancelAll()
 
 		s.Go("reader", func() {
-			dr, err := NewDagReader(ctx, root, dag)
+			dr, err := uio.NewDagReader(ctx, root, dag)
 			if err != nil {
 				s.Failf("open-failed", "NewDagReader failed on a file built by the importer: %v", err)
 				return
